@@ -3,6 +3,8 @@ mod ops;
 mod ops_access;
 mod ops_edit;
 mod ops_order;
+mod ops_path;
+mod ops_text;
 mod props;
 mod rng;
 mod wire;
